@@ -2098,6 +2098,10 @@ def render_lean(inv):
     L.append("/-- impl blocks that are deliberately not translated: (trait, header) -/")
     L.append("def skipped_rows : List (String × String) :=\n  [%s]\n" % ",\n   ".join(
         "(%s, %s)" % (K._lean_str(a), K._lean_str(b)) for a, b in inv["skipped"]))
+    L.append("/-- the names of all definitions above, in source order (an added, removed or re-flagged method changes this list) -/")
+    names = [d.name for d in inv["defs"]]
+    L.append("def def_rows : List String :=\n  [%s]\n" % ",\n   ".join(
+        ", ".join(K._lean_str(n) for n in names[i:i + 3]) for i in range(0, len(names), 3)))
     L.append("end CC.Gen.SimdX86Src")
     return "\n".join(L) + "\n"
 
